@@ -920,3 +920,93 @@ def gpo_hooks(name="GPO"):
             case.fail("C07", "recommendation-not-best-validated", f"{q}", step="end", algo=name)
 
     return {"after_init": after_init, "after_pull": after_pull, "after_recv": after_recv, "at_end": at_end}
+
+
+# ------------------------------------------------------------------ Zooming: C11 / C04
+def zooming_hooks():
+    S = {}
+    name = "Zooming"
+
+    def cover(ctx, t):
+        case, a, part = ctx["case"], ctx["algo"], ctx["part"]
+        cells = {}
+        for arm, nd in a.active_points.items():
+            p = arm.get_point()
+            dom = nd.get_domain()
+            if not all(lo <= x <= hi for x, (lo, hi) in zip(p, dom)):
+                case.fail("C11", "arm-outside-its-cell", f"arm {p} not in cell {dom}", step=t, algo=name); return
+            cells.setdefault(id(nd), []).append(arm)
+        for lf in reachable(part.get_root()):
+            if lf.get_children() is None and lf.get_depth() >= 1 and id(lf) not in cells:
+                case.fail("C11", "leaf-without-arm", f"cell (depth {lf.get_depth()}, index {lf.get_index()}) {lf.get_domain()} has no active arm", step=t, algo=name,
+                          kind=ctx["kind"])
+                return
+        for arm, nd in a.active_points.items():
+            if nd.get_children() is not None:
+                case.fail("C11", "arm-on-internal-cell", f"arm {arm.get_point()} is responsible for a refined cell", step=t, algo=name); return
+
+    def after_init(ctx):
+        S.update(ledger={}, phase=1, next_end=2, time=0)
+        cover(ctx, "init")
+
+    def index(ctx, arm):
+        rs = S["ledger"].get(id(arm), [])
+        mean = math.fsum(rs) / len(rs) if rs else 0.0
+        return mean + 2 * math.sqrt(8 * S["phase"] / (2 + len(rs)))
+
+    def after_pull(ctx, t, pt):
+        case, a = ctx["case"], ctx["algo"]
+        arm = None
+        for x in a.active_points:
+            if x.get_point() is pt:
+                arm = x
+        S["arm"] = arm
+        if arm is None:
+            case.fail("C11", "point-not-an-active-arm", f"{pt}", step=t, algo=name); return
+        best = max(index(ctx, x) for x in a.active_points)
+        if not rel_close(index(ctx, arm), best):
+            case.fail("C11", "not-max-index", f"pulled index {index(ctx, arm)!r}, best active arm {best!r}", step=t, algo=name)
+        S["cell"] = a.active_points[arm]
+        S["calls"] = len(ctx["part"]._calls)
+
+    def after_recv(ctx, t, pt, r):
+        case, a, part = ctx["case"], ctx["algo"], ctx["part"]
+        arm = S.get("arm")
+        if arm is None:
+            return
+        S["ledger"].setdefault(id(arm), []).append(r)
+        S["time"] += 1
+        if S["time"] >= S["next_end"]:
+            S["phase"] += 1
+            S["next_end"] += 2 ** S["phase"]
+        if a.phase != S["phase"]:
+            case.fail("C11", "phase-schedule", f"phase {a.phase}, doubling schedule says {S['phase']}", step=t, algo=name)
+        for x in a.active_points:
+            rs = S["ledger"].get(id(x), [])
+            if a.pulled_times[x] != len(rs):
+                case.fail("C04", "arm-count", f"arm {x.get_point()} count {a.pulled_times[x]} != {len(rs)}", step=t, algo=name); break
+            if rs and not rel_close(float(a.average_rewards[x]), math.fsum(rs) / len(rs)):
+                case.fail("C04", "arm-mean", f"arm {x.get_point()} mean {a.average_rewards[x]!r} != {math.fsum(rs)/len(rs)!r}", step=t, algo=name); break
+        if sum(a.pulled_times[x] for x in a.active_points) != S["time"]:
+            case.fail("C04", "count-sum", f"arm counts sum to {sum(a.pulled_times[x] for x in a.active_points)} after {S['time']} rounds", step=t, algo=name)
+        p = ctx["meta"]["params"]
+        cell = S["cell"]
+        rad = math.sqrt(8 * S["phase"] / (2 + len(S["ledger"][id(arm)])))
+        thr = p["nu"] * p["rho"] ** cell.get_depth()
+        refined = len(part._calls) > S["calls"]
+        if abs(rad - thr) > 1e-9 * thr and refined != (rad <= thr):
+            case.fail("C11", "refinement-rule", f"radius {rad!r}, nu*rho^depth {thr!r}, refined={refined}", step=t, algo=name)
+        if refined:
+            c = part._calls[-1]
+            if c["parent"] != cell._vid:
+                case.fail("C11", "refined-other-cell", "", step=t, algo=name)
+            for i in c["created"]:
+                k = part._all[i]
+                inside = all(lo <= x <= hi for x, (lo, hi) in zip(arm.get_point(), k.get_domain()))
+                arms_here = [x for x, nd in a.active_points.items() if nd is k]
+                if not inside:
+                    if len(arms_here) != 1 or list(arms_here[0].get_point()) != list(k.get_cpoint()):
+                        case.fail("C11", "child-without-new-arm", f"child {k.get_domain()} does not contain the arm and has arms {[x.get_point() for x in arms_here]}", step=t, algo=name)
+        cover(ctx, t)
+
+    return {"after_init": after_init, "after_pull": after_pull, "after_recv": after_recv}
